@@ -9,6 +9,7 @@ import (
 	"fmt"
 	"io"
 	"net/http"
+	"os"
 	"sort"
 	"strconv"
 	"strings"
@@ -28,6 +29,18 @@ type VerifS3 struct {
 	mu       sync.Mutex
 	Objects  map[string][]byte
 	Modified map[string]int64 // LastModified of an object in Unix ms (default: 2024-01-01)
+	// Faults: "L" ListObjectsV2, "p:<key>" ranged GetObject bytes=-4 of key, "t:<key>"/"g:<key>" GetObject of key
+	// -> 403 AccessDenied (a client error: the SDK's retryer does not retry it, so no back-off sleeps)
+	Faults map[string]bool
+}
+
+// SetFaults replaces the fault set and returns the previous one.
+func (v *VerifS3) SetFaults(f map[string]bool) map[string]bool {
+	v.mu.Lock()
+	defer v.mu.Unlock()
+	old := v.Faults
+	v.Faults = f
+	return old
 }
 
 // ServeHTTP makes the same endpoint reachable over a real socket (httptest), for discovery.New.
@@ -79,7 +92,17 @@ func (v *VerifS3) Do(req *http.Request) (*http.Response, error) {
 	if len(parts) == 2 {
 		key = parts[1]
 	}
+	if os.Getenv("VERIF_S3_TRACE") != "" {
+		fmt.Fprintf(os.Stderr, "s3 %s %s range=%q faults=%v\n", req.Method, req.URL.String(), req.Header.Get("Range"), v.Faults)
+	}
+	denied := resp(403, []byte(`<?xml version="1.0" encoding="UTF-8"?><Error><Code>AccessDenied</Code><Message>verif: injected fault</Message></Error>`),
+		map[string]string{"Content-Type": "application/xml"})
 	switch {
+	case req.Method == http.MethodGet && key == "" && req.URL.Query().Get("list-type") == "2" && v.Faults["L"]:
+		return denied, nil
+	case req.Method == http.MethodGet && key != "" && (v.Faults["g:"+key] || v.Faults["t:"+key] ||
+		(v.Faults["p:"+key] && req.Header.Get("Range") == "bytes=-4")):
+		return denied, nil
 	case req.Method == http.MethodGet && key == "" && req.URL.Query().Get("list-type") == "2":
 		prefix := req.URL.Query().Get("prefix")
 		var keys []string
